@@ -156,7 +156,6 @@ class TaskLoader:
             # file would not be able to see the file's own top-level symbols.
             # pylint: disable=exec-used
             exec(include_code, scope)
-            scope.pop("__builtins__", None)
         except SyntaxError as ex:
             syntax_err = TaskSyntaxError()
             syntax_err.add_file_context(
@@ -184,6 +183,12 @@ class TaskLoader:
             raise run_err from ex
 
         # 6. Update the current scope with the new symbols.
+        # N.B. `scope` is the global namespace of the functions defined in the
+        # included file and must keep its `__builtins__` entry (`exec()` added
+        # it); we only leave it out of what the COND file gets to see.
+        scope = {
+            name: value for name, value in scope.items() if name != "__builtins__"
+        }
         self._curr_exec_scope.update(scope)
 
         # 7. Update the cache.
